@@ -138,22 +138,36 @@ def generate(ctx):
             yield 'globalmean', {'grid': g, 'ref': refs[int(rng.integers(0, len(refs)))], 'days': float(rng.uniform(-20000, 20000))}
     # Held-Suarez
     yield 'hs_defaults', {}
-    hg = ['g8x4', 'g12x6'] if quick else ['g8x4', 'g12x6', 'g8x4', 'g12x6', 'g16x8']
-    for gi, g in enumerate(hg):
-        K = int(rng.integers(3, 5)) if quick else int(rng.integers(2, 7))
-        for rep in range(1 if quick else 2):
-            b = util.uneven_boundaries(rng, K).tolist() if (gi + rep) % 2 else np.linspace(0, 1, K + 1).tolist()
-            pv = (gi + rep) % 4
-            tref = rng.integers(200, 300, K).astype(float).tolist()
-            base = {'grid': g, 'b': b, 'tref': tref, 'pv': pv}
-            ctx.count('hs:grid=' + g); ctx.count(f'hs:K={K}'); ctx.count(f'hs:params={pv}')
-            yield 'hs_coeffs', base
-            grid = GRIDS[g]; nx, ny = grid['longitude_nodes'], grid['latitude_nodes']
-            yield 'hs_teq', dict(base, ps_rel=(rng.integers(40, 120, (nx, ny)) / 100.0).tolist())
-            M, L = 2 * grid['longitude_wavenumbers'] - 1, grid['total_wavenumbers']
-            for low in ([True, False] if not (quick and g == 'g12x6') else [True]):
-                st = {f: rng.integers(-16, 17, (K, M, L)).tolist() for f in ('vor', 'div', 'tv')}
-                yield 'hs_terms', dict(base, low=low, state=st, lnps_nodal=(rng.integers(-20, 11, (nx, ny)) / 100.0).tolist())
+    # coefficients and equilibrium temperature: cheap, many level sets / parameter variants
+    for i in range(4 if quick else 16):
+        g = ['g8x4', 'g12x6', 'g16x8'][i % (2 if quick else 3)]
+        K = int(rng.integers(2, 9))
+        b = util.uneven_boundaries(rng, K).tolist() if i % 2 else np.linspace(0, 1, K + 1).tolist()
+        pv = i % 4
+        base = {'grid': g, 'b': b, 'tref': rng.integers(200, 300, K).astype(float).tolist(), 'pv': pv}
+        ctx.count('hs:grid=' + g); ctx.count(f'hs:K={K}'); ctx.count(f'hs:params={pv}')
+        yield 'hs_coeffs', base
+        nx, ny = GRIDS[g]['longitude_nodes'], GRIDS[g]['latitude_nodes']
+        yield 'hs_teq', dict(base, ps_rel=(rng.integers(40, 120, (nx, ny)) / 100.0).tolist())
+    # explicit_terms: exact rational evaluation of the operator chain is expensive (division by
+    # cos^2 gives large denominators), so tiny grids and few levels
+    if quick:
+        plan = [('g8x4', 2, 0, True), ('g8x4', 2, 1, False)]
+    else:
+        plan = [('g8x4', 3, pv, low) for pv in range(4) for low in (True, False)] + [('g12x6', 2, 0, True), ('g12x6', 2, 1, False)]
+    for g, K, pv, low in plan:
+        sb = HS_VARIANTS[pv].get('sigma_b', 0.7)
+        # levels on both sides of the boundary layer top
+        inner = np.sort(rng.choice(np.arange(1, 20), size=K - 1, replace=False)) / 20.0
+        b = np.concatenate([[0.0], inner, [1.0]])
+        if not ((b[:-1] + b[1:]) / 2 <= sb).any() or not ((b[:-1] + b[1:]) / 2 > sb).any():
+            b = np.concatenate([[0.0], np.linspace(sb - 0.1, 0.95, K - 1), [1.0]])
+        base = {'grid': g, 'b': b.tolist(), 'tref': rng.integers(200, 300, K).astype(float).tolist(), 'pv': pv}
+        grid = GRIDS[g]; nx, ny = grid['longitude_nodes'], grid['latitude_nodes']
+        M, L = 2 * grid['longitude_wavenumbers'] - 1, grid['total_wavenumbers']
+        st = {f: rng.integers(-16, 17, (K, M, L)).tolist() for f in ('vor', 'div', 'tv')}
+        ctx.count('hs_terms:grid=' + g); ctx.count(f'hs_terms:low={low}')
+        yield 'hs_terms', dict(base, low=low, state=st, lnps_nodal=(rng.integers(-20, 11, (nx, ny)) / 100.0).tolist())
 
 
 # ---------------------------------------------------------------------------
